@@ -108,10 +108,10 @@ def run_kernel(chk, pid, kname, dts, clauses, tol=None, unit_overrides=None, tag
 
     probe = mk()
     base = requires(probe)
-    paths = chk.explore(call, base=base + kit.CONST_AXIOMS + units.scale_axioms(),
+    paths = chk.explore(call, base=base + kit.CONST_AXIOMS,
                         catch=(UnitError, DTypeError, DimensionError, ValueError, TypeError))
     if 'canary' in clauses:
-        chk.canary(f'{pre}/requires[{tag}]', base + kit.CONST_AXIOMS + units.scale_axioms())
+        chk.canary(f'{pre}/requires[{tag}]', base + kit.CONST_AXIOMS)
     for i, p in enumerate(paths):
         ptag = tag if len(paths) == 1 else f'{tag}/path{i}'
         if p.kind == 'raise':
